@@ -13,9 +13,9 @@ import warnings
 PROP = "C13"
 COQ = dict(imports=["Model.AlterCol", "Spec.C13"], in_ty="c13_in", out_ty="iout",
            corr="corr_C13", decide="check_C13", model="tagged_C13")
-THEOREMS = ["C13_sem_is_assign", "C13_run_addressing", "C13_decider_sound", "C13_model_holds_partial", "C13_effect",
+THEOREMS = ["C13_sem_is_assign", "C13_run_addressing", "C13_decider_sound", "C13_decider_complete", "C13_model_holds_partial", "C13_effect",
             "C13_restated", "C13_raises_instead", "C13_raises_iff_unsupported", "C13_toimpl_frame", "C13_autoinc_ignored",
-            "C13_autoinc_ignored_refuted", "C13_stated_enough_exact",
+            "C13_autoinc_ignored_refuted", "C13_pg_plain_default_on_identity_refuted", "C13_stated_enough_exact",
             "C13_stated_enough_minimal"]
 TRUSTED = [
     "C13 statement tokenizer in harness/props/c13.py (SQL text -> abstract statements; strict per dialect, fails loudly)",
@@ -25,7 +25,13 @@ TRUSTED = [
     "SQLAlchemy type / default / literal rendering is an opaque token (one token per catalogue value and dialect)",
 ]
 ASSUME = [
-    "server defaults are plain strings (no Identity / Computed), comments are non-empty strings",
+    "server defaults are plain strings, sqlalchemy.Computed or sqlalchemy.Identity objects (one catalogue object per kind and "
+    "side); for Identity / Computed the model and the correspondence cover which construct is built, which dialect compiles it "
+    "and what is raised, the effect theorems are stated for plain defaults; the PostgreSQL identity SET loop is an opaque token "
+    "(full / differing attributes) and SET on a column that is not an identity is not judged; an empty-string comment is "
+    "the same as no comment (None) on every backend and is encoded so",
+    "batch mode: only the forwarding of BatchOperations.alter_column to the dialect impl when no table recreate is needed "
+    "(every dialect except sqlite); the recreate path is C10's",
     "type-bound CHECK constraints (Boolean / non-native Enum with create_constraint=True) are named; which constraint "
     "toimpl's _count_constraint accepts for a type on a dialect is SQLAlchemy's create rule, observed by the harness and given to "
     "the model as ty_ck; DROP/ADD CONSTRAINT are modelled as leaving the six column attributes alone (the constraint itself is not "
@@ -56,6 +62,9 @@ COQ_DIALECT = {"default": "Ddefault", "sqlite": "Dsqlite", "postgresql": "Dpostg
 TYPES = {"T0": (10, False), "T1": (11, False), "B0": (12, False), "E1": (13, False), "DT0": (20, True), "DT1": (21, True)}
 CK_IDS = {"ckb": 50, "cke": 51}         # names of the type-bound CHECKs of B0 (Boolean) and E1 (non-native Enum)
 DEFAULT_IDS = {"7": 7, "9": 9}          # existing default text '7', requested '9'
+# default codes: F absent(False) / N None / S plain string / C Computed / I Identity.  Coq ids and kinds:
+REQ_DEFAULT = {"S": (9, "KPlain"), "C": (81, "KComputed"), "I": (71, "KIdentity")}
+EX_DEFAULT = {"S": (7, "KPlain"), "C": (80, "KComputed"), "I": (70, "KIdentity")}
 COMMENT_IDS = {"oc": 30, "nc": 31}      # existing comment, requested comment
 NAME_IDS = {"c": 1, "d": 2}
 SCHEMA_IDS = {"s": 60}                  # Spec.C13: tS = (Some 60, 61), tN = (None, 61)
@@ -78,14 +87,39 @@ TRI3 = [None, True, False]
 PRES = [None, True]          # presence only (one polarity)
 
 
-def lattice(d, req_types, ex_types, schemas, rnull=TRI3, rauto=TRI3, enull=TRI3, eauto=TRI3, usings=(None,), tri="FNS"):
+def lattice(d, req_types, ex_types, schemas, rnull=TRI3, rauto=TRI3, enull=TRI3, eauto=TRI3, usings=(None,), tri="FNS",
+            rdef=None, edef=None, rcom=None, ecom=(None, "S"), batch=False, keep=None):
     """schemas: [False], [True], [False, True] (both for every pattern) or "alt" (alternating along the enumeration)"""
     k = 0
-    for rt, rn, rd, rname, rc, ra, ru in itertools.product(req_types, rnull, tri, [None, "d"], tri, rauto, usings):
-        for et, en, ed, ec, ea in itertools.product(ex_types, enull, tri, [None, "S"], eauto):
+    for rt, rn, rd, rname, rc, ra, ru in itertools.product(req_types, rnull, rdef or tri, [None, "d"], rcom or tri, rauto, usings):
+        for et, en, ed, ec, ea in itertools.product(ex_types, enull, edef or tri, ecom, eauto):
+            if keep is not None and not keep(rd, ed):
+                continue
             k += 1
             for sch in ([bool(k & 1)] if schemas == "alt" else schemas):
-                yield {"d": d, "schema": sch, "req": _req(rt, rn, rd, rname, rc, ra, ru), "ex": _ex(et, en, ed, ec, ea)}
+                h = {"d": d, "schema": sch, "req": _req(rt, rn, rd, rname, rc, ra, ru), "ex": _ex(et, en, ed, ec, ea)}
+                if batch:
+                    h["batch"] = True
+                yield h
+
+
+def smoke():
+    """a fixed slice of 203 cases that runs right after the corpus: per dialect the full request, rename + comment, rename +
+    type-bound CHECK, each single attribute, the nothing-stated and everything-stated existing, one Identity / Computed case"""
+    reqs = [_req("T1", False, "S", "d", "S", True), _req(None, None, "F", "d", "S", None), _req("E1", None, "F", "d", "F", None),
+            _req("T1", None, "F", None, "F", None), _req(None, True, "F", None, "F", None), _req(None, None, "S", None, "F", None),
+            _req(None, None, "N", None, "F", None), _req(None, None, "F", None, "N", None), _req(None, None, "F", None, "F", True),
+            _req("T1", None, "F", None, "F", None, "u1"), _req(None, False, "F", "d", "F", None), _req("T1", True, "N", None, "E", None),
+            _req(None, None, "I", None, "F", None)]
+    exs = [_ex(None, None, "F", None, None), _ex("T0", True, "S", "S", False)]
+    for d in DIALECTS:
+        for r in reqs:
+            for k, e in enumerate(exs):
+                yield {"d": d, "schema": bool(k), "req": dict(r), "ex": dict(e)}
+        yield {"d": d, "schema": True, "req": _req(None, None, "S", None, "F", None), "ex": _ex("T0", None, "I", None, None)}
+        yield {"d": d, "schema": False, "req": _req(None, True, "F", None, "F", None), "ex": _ex("T0", None, "C", None, None)}
+        if d != "sqlite":
+            yield {"d": d, "schema": True, "batch": True, "req": _req("T1", False, "S", "d", "F", None), "ex": _ex("T0", True, "S", None, None)}
 
 
 RULE = (
@@ -99,12 +133,35 @@ RULE = (
     "mariadb and sqlite on the presence lattice (one polarity per boolean), schema alternating along "
     "the enumeration, plus postgresql_using on the postgresql presence lattice, plus on every dialect the schema types B0 = "
     "Boolean(create_constraint=True) / E1 = non-native Enum(create_constraint=True) as type_ and existing_type on a presence "
-    "lattice with server_default/comment in {absent, value} (toimpl's DROP/ADD CONSTRAINT). thorough: all seven dialects complete x {schema, no "
+    "lattice with server_default/comment in {absent, value} (toimpl's DROP/ADD CONSTRAINT). Both tiers start with the corpus, a "
+    "fixed 203-case smoke slice, then on every dialect: server_default / existing_server_default in {absent, None, plain, "
+    "Computed, Identity} with at least one Computed/Identity x a presence lattice; comment='' / existing_comment=''; "
+    "batch_alter_table(...).alter_column on every dialect but sqlite (no recreate). thorough: all seven dialects complete x {schema, no "
     "schema}, mysql/mariadb with DateTime types, plus on every dialect a slice with requested type == existing type / DateTime types "
     "a slice with postgresql_using and the schema-type slice on the full presence lattice. non-trivial = no exception and at least one statement emitted; distinct by encoded input")
 
 
+def _special_slices(tier):
+    kinds = lambda rd, ed: rd in "CI" or ed in "CI"
+    full = tier != "quick"
+    for d in DIALECTS:
+        # Computed / Identity server defaults on either side
+        yield from lattice(d, [None, "T1"], [None, "T0"], "alt", rnull=TRI3 if full else PRES, rauto=[None, True] if full else [None],
+                           enull=[None, False], eauto=[None], rdef="FNSCI", edef="FNSCI", rcom="FS", ecom=[None, "S"] if full else [None],
+                           keep=kinds)
+        # empty-string comments (requested and stated)
+        yield from lattice(d, [None, "T1"], [None, "T0"], "alt", rnull=PRES, rauto=[None], enull=[None, False], eauto=[None],
+                           rdef="FS", edef="FS", rcom="E" if not full else "FE", ecom=[None, "S", "E"],
+                           keep=(lambda rd, ed: True))
+        # batch mode without recreate: BatchOperations.alter_column forwarded to the dialect impl
+        if d != "sqlite":
+            yield from lattice(d, [None, "T1", "E1"] if full else [None, "T1"], [None, "T0", "B0"] if full else [None, "T0"], "alt",
+                               rnull=PRES, rauto=PRES, enull=[None, False], eauto=PRES, tri="FNS" if full else "FS", batch=True)
+
+
 def generate(tier, seed):
+    yield from smoke()
+    yield from _special_slices(tier)
     if tier == "quick":
         for d in ("default", "postgresql", "oracle"):
             yield from lattice(d, [None, "T1"], [None, "T0"], "alt", enull=[None, False], eauto=PRES)
@@ -160,17 +217,25 @@ def _b(x):
 
 
 def _tri(code, val):
-    return {"F": "TFalse", "N": "TNone", "S": "(TSome %d)" % val}[code]
+    return {"F": "TFalse", "N": "TNone", "E": "TNone", "S": "(TSome %d)" % val}[code]      # E: '' encoded as None
+
+
+def _dflt(code, table):
+    if code in table:
+        return "(TSome %d)" % table[code][0], table[code][1]
+    return {"F": "TFalse", "N": "TNone"}[code], "KPlain"
 
 
 def encode_in(h):
     r, e = h["req"], h["ex"]
-    req = "(mkReq %s %s %s %s %s %s %s)" % (
-        _opt(r["type"], lambda t: _ty(t, h["d"])), _opt(r["null"], _b), _tri(r["default"], 9), _opt(r["name"], lambda n: str(NAME_IDS[n])),
-        _tri(r["comment"], 31), _opt(r["autoinc"], _b), _opt(r.get("using"), lambda u: str(USING_IDS[u])))
-    ex = "(mkEx 1 %s %s %s %s %s)" % (
-        _opt(e["type"], lambda t: _ty(t, h["d"])), _opt(e["null"], _b), _tri(e["default"], 7),
-        "None" if e["comment"] is None else "(Some 30)", _opt(e["autoinc"], _b))
+    rd, rk = _dflt(r["default"], REQ_DEFAULT)
+    ed, ek = _dflt(e["default"], EX_DEFAULT)
+    req = "(mkReq %s %s %s %s %s %s %s %s)" % (
+        _opt(r["type"], lambda t: _ty(t, h["d"])), _opt(r["null"], _b), rd, _opt(r["name"], lambda n: str(NAME_IDS[n])),
+        _tri(r["comment"], 31), _opt(r["autoinc"], _b), _opt(r.get("using"), lambda u: str(USING_IDS[u])), rk)
+    ex = "(mkEx 1 %s %s %s %s %s %s)" % (
+        _opt(e["type"], lambda t: _ty(t, h["d"])), _opt(e["null"], _b), ed,
+        "(Some 30)" if e["comment"] == "S" else "None", _opt(e["autoinc"], _b), ek)
     return "(mkIn %s %s %s %s)" % (COQ_DIALECT[h["d"]], "tS" if h["schema"] else "tN", req, ex)
 
 
@@ -184,7 +249,11 @@ def encode_stmt(s, d):
         return "%s %d %s" % (k, c, _opt(s[2], str))
     if k == "SetType":
         return "SetType %d %s %s" % (c, _ty(s[2]), _opt(s[3], str))
-    if k in ("Rename", "MSSQLSpRename", "MSSQLAddDefault", "AddConstraint"):
+    if k == "AlterIdentity":
+        return "AlterIdentity %d %d %s" % (c, s[2], _b(s[3]))
+    if k in ("DropIdentity", "AlterIdentityEmpty"):
+        return "%s %d" % (k, c)
+    if k in ("Rename", "MSSQLSpRename", "MSSQLAddDefault", "AddConstraint", "AddIdentity"):
         return "%s %d %d" % (k, c, s[2])
     if k == "DropConstraint":
         return "DropConstraint %d" % s[2]
@@ -269,6 +338,7 @@ def call_real(h):
     from alembic.operations import Operations
     from alembic.util import CommandError
     from sqlalchemy import exc as sa_exc
+    import sqlalchemy as sa
     mk, objs, _, _ = _context(h["d"])
     r, e = h["req"], h["ex"]
     kw = {}
@@ -277,11 +347,12 @@ def call_real(h):
     if r["null"] is not None:
         kw["nullable"] = r["null"]
     if r["default"] != "F":
-        kw["server_default"] = None if r["default"] == "N" else "9"
+        kw["server_default"] = {"N": lambda: None, "S": lambda: "9", "C": lambda: sa.Computed("x + 1"),
+                                "I": lambda: sa.Identity(always=True, start=1, increment=5)}[r["default"]]()
     if r["name"] is not None:
         kw["new_column_name"] = r["name"]
     if r["comment"] != "F":
-        kw["comment"] = None if r["comment"] == "N" else "nc"
+        kw["comment"] = {"N": None, "S": "nc", "E": ""}[r["comment"]]
     if r["autoinc"] is not None:
         kw["autoincrement"] = r["autoinc"]
     if r.get("using") is not None:
@@ -291,9 +362,10 @@ def call_real(h):
     if e["null"] is not None:
         kw["existing_nullable"] = e["null"]
     if e["default"] != "F":
-        kw["existing_server_default"] = None if e["default"] == "N" else "7"
+        kw["existing_server_default"] = {"N": lambda: None, "S": lambda: "7", "C": lambda: sa.Computed("x + 2"),
+                                         "I": lambda: sa.Identity(start=1, increment=1)}[e["default"]]()
     if e["comment"] is not None:
-        kw["existing_comment"] = "oc"
+        kw["existing_comment"] = "oc" if e["comment"] == "S" else ""
     if e["autoinc"] is not None:
         kw["existing_autoincrement"] = e["autoinc"]
     buf = io.StringIO()
@@ -302,7 +374,11 @@ def call_real(h):
     with warnings.catch_warnings():
         warnings.simplefilter("ignore")
         try:
-            op.alter_column("t", "c", schema="s" if h["schema"] else None, **kw)
+            if h.get("batch"):
+                with op.batch_alter_table("t", schema="s" if h["schema"] else None) as bop:
+                    bop.alter_column("c", **kw)
+            else:
+                op.alter_column("t", "c", schema="s" if h["schema"] else None, **kw)
         except CommandError:
             err = "CommandError"
         except sa_exc.CompileError:
@@ -363,7 +439,14 @@ def parse_statement(dn, s, tokens):
         re.fullmatch(AT + r"ADD CONSTRAINT (?P<ck>cke) CHECK \(" + COL + r" IN \('a', 'b'\)\)", s)
     if m:
         return _target(m), ("AddConstraint", col(m), CK_IDS[m.group("ck")])
+    IDENT_FULL = r"GENERATED ALWAYS AS IDENTITY \(INCREMENT BY 5 START WITH 1\)"      # the requested Identity (id 71)
     if dn == "oracle":
+        m = re.fullmatch(AT + "MODIFY " + COL + " " + IDENT_FULL, s)
+        if m:
+            return _target(m), ("AddIdentity", col(m), 71)
+        m = re.fullmatch(AT + "MODIFY " + COL + " DROP IDENTITY", s)
+        if m:
+            return _target(m), ("DropIdentity", col(m))
         m = re.fullmatch(AT + "MODIFY " + COL + r" (NULL|NOT NULL)", s)
         if m:
             return _target(m), ("SetNull", col(m), m.group(4) == "NULL")
@@ -426,12 +509,24 @@ def parse_statement(dn, s, tokens):
     if m:
         return _target(m), ("SetDefault", col(m), None if m.group("df") is None else DEFAULT_IDS[_lit(m.group("df"))])
     if dn == "postgresql":
+        m = re.fullmatch(AT + "ALTER COLUMN " + COL + " ADD " + IDENT_FULL, s)
+        if m:
+            return _target(m), ("AddIdentity", col(m), 71)
+        m = re.fullmatch(AT + "ALTER COLUMN " + COL + " DROP IDENTITY", s)
+        if m:
+            return _target(m), ("DropIdentity", col(m))
+        m = re.fullmatch(AT + "ALTER COLUMN " + COL + r" SET GENERATED ALWAYS SET INCREMENT BY 5(?P<full> SET START WITH 1)? ?", s)
+        if m:
+            return _target(m), ("AlterIdentity", col(m), 71, m.group("full") is not None)
+        m = re.fullmatch(AT + "ALTER COLUMN " + COL + " ?", s)
+        if m:
+            return _target(m), ("AlterIdentityEmpty", col(m))
         m = re.fullmatch(AT + "ALTER COLUMN " + COL + r" TYPE (?P<ty>%s)(?: USING (?P<u>\w+))? ?" % ty_alt, s)
         if m:
             return _target(m), ("SetType", col(m), tokens[m.group("ty")], None if m.group("u") is None else USING_IDS[m.group("u")])
         m = re.fullmatch(r"COMMENT ON COLUMN " + TBL + r"\." + COL + r" IS (?P<cm>NULL|'[^']*')", s)
         if m:
-            return _target(m), ("SetComment", col(m), None if m.group("cm") == "NULL" else COMMENT_IDS[_lit(m.group("cm"))])
+            return _target(m), ("SetComment", col(m), None if m.group("cm") in ("NULL", "''") else COMMENT_IDS[_lit(m.group("cm"))])
         m = re.fullmatch(AT + "RENAME " + COL + r" TO (?P<new>\w+)", s)
         if m:
             return _target(m), ("Rename", col(m), NAME_IDS[m.group("new")])
@@ -469,6 +564,8 @@ _ASSIGN = {
     "MSSQLAlterNull": lambda a: {"type": a[0], "null": a[1]}, "MSSQLAlterType": lambda a: {"type": a[0], "null": True},
     "MSSQLDropDefault": lambda a: {"default": None}, "MSSQLAddDefault": lambda a: {"default": a[0]},
     "DropConstraint": lambda a: {}, "AddConstraint": lambda a: {},
+    "AddIdentity": lambda a: {"default": a[0]}, "AlterIdentity": lambda a: {"default": a[0]},
+    "DropIdentity": lambda a: {"default": None}, "AlterIdentityEmpty": lambda a: {},
 }
 _RESTATES = {"MySQLChange": {"type", "null", "default", "comment", "autoinc"},
              "MySQLModify": {"type", "null", "default", "comment", "autoinc"},
@@ -480,12 +577,13 @@ def _deviations(h, stmts):
     """set of deviation kinds of a completed call: 'autoinc' (requested autoincrement left alone), 'other'"""
     r, e = h["req"], h["ex"]
     dev = set()
-    tri = lambda code, v: _NOTHING if code == "F" else (None if code == "N" else v)
+    tri = lambda code, v: _NOTHING if code == "F" else (None if code in "NE" else
+                                                        (v[code][0] if isinstance(v, dict) else v))
     opt = lambda x: _NOTHING if x is None else x
     req = {"name": opt(NAME_IDS.get(r["name"])), "type": opt(r["type"]), "null": opt(r["null"]),
-           "default": tri(r["default"], 9), "comment": tri(r["comment"], 31), "autoinc": opt(r["autoinc"])}
-    stated = {"name": 1, "type": opt(e["type"]), "null": opt(e["null"]), "default": tri(e["default"], 7),
-              "comment": _NOTHING if e["comment"] is None else 30, "autoinc": opt(e["autoinc"])}
+           "default": tri(r["default"], REQ_DEFAULT), "comment": tri(r["comment"], 31), "autoinc": opt(r["autoinc"])}
+    stated = {"name": 1, "type": opt(e["type"]), "null": opt(e["null"]), "default": tri(e["default"], EX_DEFAULT),
+              "comment": 30 if e["comment"] == "S" else _NOTHING, "autoinc": opt(e["autoinc"])}
     reading = {"null": True, "default": None, "comment": None, "autoinc": False}
     last, restated, cur = {}, set(), 1
     want_t = "tS" if h["schema"] else "tN"
@@ -505,7 +603,8 @@ def _deviations(h, stmts):
             if v is _NOTHING:
                 v = stated[a]
             if v is _NOTHING or v != req[a]:
-                dev.add("autoinc" if a == "autoinc" and a not in last else "other")
+                dev.add("autoinc" if a == "autoinc" and a not in last else
+                        "default-unapplied" if a == "default" and a not in last else "other")
         elif v is not _NOTHING:
             if stated[a] is not _NOTHING:
                 if v != stated[a]:
@@ -516,12 +615,22 @@ def _deviations(h, stmts):
 
 
 def classify(h, out):
-    """known finding, attributed only when it is the ONLY thing wrong with the output of a completed call:
-    C13-autoincrement-ignored: a requested autoincrement= is silently ignored outside MySQL/MariaDB.
+    """known findings, attributed only when they are the ONLY things wrong with the output of a completed call:
+    C13-autoincrement-ignored: a requested autoincrement= is silently ignored outside MySQL/MariaDB;
+    C13-pg-plain-default-on-identity-ignored: on postgresql a plain server_default requested while
+    existing_server_default is an Identity emits an empty ALTER COLUMN and the default is not applied.
     (the former C13-type-check-added-after-rename is repaired in /repo (0b330f6); its witness is corpus/C13/ and a
     regression is an ordinary VIOLATION)"""
     if out is None or out.get("err") is not None:
         return None
-    if _deviations(h, out["stmts"]) == {"autoinc"} and h["d"] not in ("mysql", "mariadb"):
-        return "C13-autoincrement-ignored"
-    return None
+    dev = _deviations(h, out["stmts"])
+    if not dev or not dev <= {"autoinc", "default-unapplied"}:
+        return None
+    if "autoinc" in dev and h["d"] in ("mysql", "mariadb"):
+        return None
+    if "default-unapplied" in dev:
+        if h["d"] == "postgresql" and h["req"]["default"] == "S" and h["ex"]["default"] == "I" \
+                and any(s[1] == "AlterIdentityEmpty" for s in out["stmts"]):
+            return "C13-pg-plain-default-on-identity-ignored"
+        return None
+    return "C13-autoincrement-ignored"
